@@ -586,6 +586,9 @@ func c16readers(c *fw.Ctx) {
 						bad.Store(fmt.Sprintf("concurrent HasMissingNodes = %v, sequential = %v", hm, wantMissing))
 					}
 				case 2:
+					if i%3 == 0 {
+						_ = shared.Validate() // a read as well: it must return whatever the writers do
+					}
 					for _, k := range shared.GetMissingNodeKeys() {
 						if n, err := part.GetNode(k); err == nil && n != nil {
 							bad.Store(fmt.Sprintf("GetMissingNodeKeys lists %x which is present", k))
